@@ -170,6 +170,10 @@ class App(object):
             return None
         if kind == 'abandon':
             return ('abandon', op.get('how', 'break'))
+        if kind == 'set_attr':
+            # a public attribute of the WebSocket changed between connects
+            setattr(ws, op['name'], op['value'])
+            return None
         if kind == 'release_old':
             # finalise the generators of earlier, abandoned connections now
             olds = getattr(self, 'olds', None) or []
@@ -334,6 +338,20 @@ class ExitEvent(object):
 
     def set(self):
         self.stop_at = -1
+
+
+class FalsyExitEvent(ExitEvent):
+    """An exit event whose truth value is its state (false while unset, an
+    Event subclass many code bases have): persist() must use the object it
+    was given, whatever bool() says about it."""
+
+    def __bool__(self):
+        return self.is_set()
+
+    __nonzero__ = __bool__
+
+    def __len__(self):
+        return 1 if self.is_set() else 0
 
 
 def _make_ws(scen):
@@ -619,7 +637,8 @@ def _run(scen):
         pk = dict(persist_cfg)
         stop_at = pk.pop('stop_at', None)
         tee = pk.pop('tee', True)
-        exit_event = ExitEvent(w, trace, stop_at)
+        exit_event = (FalsyExitEvent if pk.pop('falsy_event', False)
+                      else ExitEvent)(w, trace, stop_at)
         if tee:
             _tee_connect(ws, trace)
 
